@@ -7,6 +7,7 @@ statement lifted verbatim (build.rs) out of the `quote!` block of pavexc's codeg
 The oracle below re-implements the *documentation* (docs/guide/routing/domain_guards.md + the property
 text) in Python, independently of the Lean model.
 """
+import os
 import re
 import string
 
@@ -487,9 +488,14 @@ def run(R):
                 return known["C20-too-many-parameters"]
         return None
 
+    extra_ok = True
+    if os.environ.get("PXV_C20_E2E", "1") != "0" and not R.replay:
+        # accepted guards, nested ones included, through the real compiler and the generated server (family gen_routes)
+        import domains_e2e
+        extra_ok = domains_e2e.domain_stage(R, "C20")
     pxvlib.differential(
         R, modules=["Pxv.Thm.C20"], model="domain", pkg="c20", gen=gen, oracle=oracle, nontrivial=nontrivial,
-        mutate=mutate, match_known=match_known, n_quick=24000, n_thorough=1000000,
+        mutate=mutate, match_known=match_known, n_quick=24000, n_thorough=1000000, extra_lean_ok=extra_ok,
         rule="75% single guard strings (valid-biased label lists with 0-2 character mutations over `ab1-{}*._!A\\u00e9`, length boundaries "
              "63/64 and 253/254 with parameters counting 1, 24-30 parameters, short random strings; 0/1/2 trailing dots) -> verdict, "
              "error kind, stored form, matchit pattern; 25% guard sets (1-4 guards over a shared base domain, literal / {p} / {p}rest / "
